@@ -22,16 +22,16 @@ import (
 //   - "log": plain build. Every hook appends an event to one mutex-protected
 //     log with the goroutine id; the orchestrator checks the log offline.
 var c13 struct {
-	mode     string
-	parkAt   string // "", dirty2, wal, miss
-	parkMs   int
-	dirtyN   int // markDirty calls of the current statement (session goroutine only)
-	parked   bool
-	inStmt   bool
-	mu       sync.Mutex
-	seq      int
-	events   []proto.Event
-	stmtNo   int
+	mode   string
+	parkAt string // "", dirty2, wal, miss
+	parkMs int
+	dirtyN int // markDirty calls of the current statement (session goroutine only)
+	parked bool
+	inStmt bool
+	mu     sync.Mutex
+	seq    int
+	events []proto.Event
+	stmtNo int
 }
 
 func goid() int64 {
